@@ -419,6 +419,7 @@ impl CodeFormatter {
                 lparen,
                 args,
                 rparen,
+                ..
             } => {
                 self.push(&id.data)
                     .fmt(lparen.as_ref())
